@@ -171,6 +171,7 @@ def check_initialize(w, rep, f):
     rep.check("C11.gate", "initialize: x0 is gated by the returned error code (zero state on failure)", all(c.const_value() == 0 for c in rej.flat()),
               "x0 is not selected by error_code == 0", where=W)
     check_code_tree(rep, "initialize", ret, W)
+    check_declination_axis(w, rep, W)
     # TRIAD degeneracy: the construction divides by |n3 x Bh| (n3 = -g/|g|, Bh = B/|B|); some rejection test must bound
     # exactly that quantity away from zero, otherwise parallel OR anti-parallel gravity and field give 0/0 = NaN with code 0
     I = dict(zip(f.in_names, f.ins))
@@ -202,6 +203,52 @@ def check_initialize(w, rep, f):
     good, why = is_shadowed(w.sl(acc, 0, 3))
     rep.check("C11.valid", "initialize: returned MRP is shadow-switched (|r| <= 1)", good, "initial attitude is not passed through the shadow switch: %s" % why, where=W)
     rep.check("C11.valid", "initialize: initial gyro bias is zero", all(c.is_zero() for c in w.sl(acc, 3, 6).flat()), "initial bias is not zero", where=W)
+
+
+def check_declination_axis(w, rep, W):
+    """First-order effect of the declination on the TRIAD frame: the east axis (row 1 of the matrix handed to from_Matrix) is
+    rotated by -decl about the MEASURED vertical n3_b (row 2), so d(row 1)/d(decl) at decl = 0 must be -(n3_b x n2_b).
+    Decided by Taylor coefficients in decl (decl > 0 side, regular branch).  A rotation about a fixed axis instead is exact
+    for a level vehicle or zero declination only."""
+    from ..taylor import expand
+    from .c16 import subs_syms
+    Mr = w.G("SO3Mrp")
+    mod = w.mod(MRP)
+    inst = "initialize: d(east axis)/d(decl) at decl = 0 is -(n3_b x n2_b) (declination applied about the measured vertical)"
+    ok, res = guarded(w, rep, "C11.valid", inst, lambda: capture_calls(w, "from_Matrix", lambda: w.callf(mod["initialize"]), self_is=Mr))
+    if not ok:
+        return
+    f, seen = res
+    if not seen or not isinstance(f, cm.FunctionVal) or "decl" not in (f.in_names or []):
+        rep.incomplete("C11.valid", inst, "no SO3Mrp.from_Matrix call / decl input while deriving initialize", where=W)
+        return
+    R0 = seen[-1]["arg"]
+    da = dict(zip(f.in_names, f.ins))["decl"].s().single_atom()
+    with with_maxdeg(40):
+        R0c = closed(w, R0)
+        R0c = assign_ites(R0c, {c: False for c in ite_conditions(R0c)})
+        R0c = with_signs(R0c, {da: 1})
+        R00 = subs_syms(R0c, {da: Poly()})
+        n2, n3 = cm.transpose(w.blk(R00, 1, 2, 0, 3)), cm.transpose(w.blk(R00, 2, 3, 0, 3))
+        ref = cm.neg(cm.cross(n3, n2))
+        worst, detail = EQUAL, None
+        for j in range(3):
+            tl = expand(R0c.cells[1][j], [da], 1)
+            if tl is None:
+                worst, detail = UNKNOWN, "no Taylor expansion in decl for component %d" % j
+                break
+            v = decide(tl.get((1,), Poly()), ref.cells[j][0])
+            if v == DIFFERENT:
+                worst, detail = DIFFERENT, "component %d: %s  vs  %s" % (j, short(tl.get((1,), Poly()), 70), short(ref.cells[j][0], 70))
+                break
+            if v == UNKNOWN:
+                worst, detail = UNKNOWN, "component %d: %s  vs  %s" % (j, short(tl.get((1,), Poly()), 70), short(ref.cells[j][0], 70))
+    if worst == EQUAL:
+        rep.ok("C11.valid", inst)
+    elif worst == DIFFERENT:
+        rep.fail("C11.valid", inst, "the declination correction does not rotate the east axis about the measured vertical: %s" % detail, where=W)
+    else:
+        rep.incomplete("C11.valid", inst, "cannot decide: %s" % detail, where=W)
 
 
 def check_predict(w, rep, f, mod):
